@@ -466,8 +466,9 @@ def run_property(prop: str, tier: str, seed: int, only: str | None = None, verbo
         "wall_s": round(wall, 2),
         "violations": len(violations),
     }
-    os.makedirs(os.path.join(ROOT, "evidence"), exist_ok=True)
-    with open(os.path.join(ROOT, "evidence", f"{prop}.json"), "w") as f:
+    evdir = os.environ.get("VERIF_EVIDENCE_DIR") or os.path.join(ROOT, "evidence")  # try_seed.sh points this at scratch
+    os.makedirs(evdir, exist_ok=True)
+    with open(os.path.join(evdir, f"{prop}.json"), "w") as f:
         json.dump(ev, f, indent=1)
     print(f"[{prop}] tier={tier} obligations={len(items)} discharged={discharged} nonexhaustive={len(nonexhaustive)} "
           f"violations={len(violations)} errors={len(harness_errors)} paths/queries={evaluations} wall={wall:.1f}s rc={rc}")
